@@ -164,6 +164,17 @@ PROPS = {
                 "ttl_ok spec on the implementation's output; plus the cache histories of C06 for the serve decision. non-trivial = minTTL>0 / cache hit",
         "assumptions": ["len(buf) >= len(msg) in AdjustedResponse (the request buffer is 64 KiB)"],
     },
+    "C04": {
+        "proof_files": ["Proofs/HandlerFacts.v", "Mutants/HandlerLeak.v"],
+        "runs": [{"engine": "reply", "args": ["-mode", "storm"], "n_quick": 20, "n_thorough": 1500, "netns": True}],
+        "trivial_tags": [],
+        "rule": "storms of 10-40 concurrent events against a real proxy with capacity K in {2,3,5}: undersized and malformed datagrams, "
+                "normal / upstream-error / timed-out / panicking requests over UDP and TCP, TCP half-frames, undersized TCP frames, disconnects "
+                "before the reply; then, after all handlers ended, K+2 slow queries: the number inside the resolver together must be exactly K "
+                "and never exceeded K during the storm (extracted c04_ok). Every storm is non-trivial",
+        "assumptions": ["kernel socket buffers hold the datagrams that are not read while capacity is exhausted",
+                        "timing: handlers end within 2x the request timeout; 90 ms are enough for K+2 loopback queries to reach the resolver"],
+    },
     "C05": {
         "proof_files": ["Proofs/ReplyFacts.v"],
         "runs": [
